@@ -3,6 +3,7 @@ import re
 from fractions import Fraction
 import z3
 from alg import *
+from irparse import Ty
 
 UBSAN_KINDS = {0: 'add-overflow', 1: 'builtin-unreachable', 2: 'cfi-check-fail', 3: 'divrem-overflow',
                4: 'dynamic-type-cache-miss', 5: 'float-cast-overflow', 6: 'function-type-mismatch',
@@ -456,6 +457,39 @@ class Models:
     def x__ZdlPvSt11align_val_t(s, st, stack, work, args, ins): return s.do_delete(st, stack, args, 'new')
     def x__ZdaPvSt11align_val_t(s, st, stack, work, args, ins): return s.do_delete(st, stack, args, 'new[]')
     def x__ZdlPvmSt11align_val_t(s, st, stack, work, args, ins): return s.do_delete(st, stack, args, 'new')
+
+    # CUDA runtime shim (C05, host->device array): device memory is an ordinary heap object of kind 'cuda'
+    def x_vf_cudaMalloc(s, st, stack, work, args, ins):
+        e = s.eng
+        n = s.alloc_size(st, stack, work, args[1], 'cudaMalloc size')
+        oid = e.alloc(st, n, 'cuda')
+        e.store(st, args[0], Ty('ptr', elem=Ty('int', 8)), Ptr(oid, 0), stack)
+        return 0
+
+    def x_cudaFree(s, st, stack, work, args, ins):
+        e = s.eng
+        p = args[0]
+        if isinstance(p, Ptr) and p.obj is None and e.A.off_conc(p.off) == 0:
+            return 0
+        if not isinstance(p, Ptr) or p.obj is None:
+            e.fail(st, 'BAD-FREE', f'cudaFree of wild pointer {p}', stack=stack); s.stop()
+        if p.obj in st.dead:
+            e.fail(st, 'DOUBLE-FREE', f'cudaFree of already freed object {p.obj}', stack=stack); s.stop()
+        ob = st.mem.get(p.obj)
+        if ob is None or ob.kind != 'cuda' or e.A.off_conc(p.off) != 0:
+            e.fail(st, 'MISMATCHED-DELETE', f'cudaFree of a pointer that cudaMalloc did not return ({p})', stack=stack); s.stop()
+        e.free_obj(st, p.obj)
+        return 0
+
+    def x_cudaMemcpy(s, st, stack, work, args, ins):
+        s.mem_copy(st, stack, work, args[:3], 'memcpy')
+        return 0
+
+    def x_cudaGetErrorString(s, st, stack, work, args, ins):
+        return Ptr(None, 0)
+
+    def x_vf_cuda_live(s, st, stack, work, args, ins):
+        return sum(1 for k, o in st.mem.items() if o.live and o.kind == 'cuda')
 
     def x_memcpy(s, st, stack, work, args, ins):
         s.mem_copy(st, stack, work, args, 'memcpy'); return args[0]
